@@ -124,6 +124,11 @@ def main2():
             #  in-process daemon holds open in WAL mode, so that mode is not exercised - DESIGN.md section 6)
             s2 = scen.rich_chain(seed + 1, long=False)
             runs.append(("t-journal2", s2.doc(), sorted(s2.blocks), 0, 0, False, 0))
+        # a chain priced with rolling averages, with unrated blocks: what the killed process held in memory (the averages window) is gone
+        # after the restart, the resumed run must still end with the uninterrupted run's ledger (kills at every 53rd statement (thorough: 5th), resumed to the tip)
+        import c07
+        adoc = c07.chain("c02-avg", seed * 13 + 4, 11, 9, 4, "wide").doc()
+        runs.append(("avg", adoc, [], 53 if tier == "quick" else 5, rnd.randrange(53), False, 0))
         issues, nexp, states, samples, infra = [], 0, 0, [], 0
         writes_out = []
         # "or a block fails at any instant": BEGIN, the first statements, the version row / metadata statements and COMMIT
